@@ -39,6 +39,8 @@ def strategy(tier: str) -> Any:
 
 
 def run_shard(H: Harness) -> None:
+    if H.tier == "thorough":
+        sc.run_small_scope(H, (), flavours=(False, True), mcs=(1, 2))
     H.run_hypothesis(strategy)
 
 
